@@ -285,6 +285,8 @@ def d5_fscale(ctx):
     repo = ctx.repo
     fs = repo.fn(MOD + ".fscale")
     fsc = [s for s in walk_function(fs.node) if isinstance(s, ast.Assign) and loc_name(s.targets[0]) == "fsc"]
+    if not fsc:
+        raise AnchorMissing("fscale: one-sided frequency vector not found")
 
     class E(Evaluator):
         def ev(self, e):
